@@ -127,23 +127,15 @@ def log_der_13(z, nstop, eps1 = 1e-3, eps2 = 1e-16):
     #dn1 = log_der_1(z, nmx, nstop)
     dn1 = dn_1_down(z, nstop + 1, nstop, lentz_dn1(z, nstop + 1, eps1, eps2))
 
-    # Calculate Dn_3 (based on \xi) by up recurrence
-    # initialize
+    # Calculate Dn_3 (based on \xi) by up recurrence on the logarithmic
+    # derivative itself: xi_n has no zeros, so D_n^3 = -n/z + 1/(n/z - D_{n-1}^3)
+    # never cancels. Going through the product psi_n*xi_n (Mackowski eqns
+    # 63-64) loses digits in all higher orders whenever z lies close to a
+    # zero of one of the psi_n.
     dn3 = zeros(nstop+1, dtype = 'complex128')
-    psixi = zeros(nstop+1, dtype = 'complex128')
     dn3[0] = 1.j
-    if z.imag > 300.:
-        # sin(z) overflows beyond Im(z) ~ 710 although the product is finite:
-        # -i exp(iz) sin(z) = (1 - exp(2iz))/2
-        psixi[0] = 0.5*(1. - exp(2.j*z))
-    else:
-        psixi[0] = -1j*exp(1.j*z)*sin(z)
     for dindex in arange(1, nstop+1):
-        # Mackowski eqn 63
-        psixi[dindex] = psixi[dindex-1] * ( (dindex/z) - dn1[dindex-1]) * (
-            (dindex/z) - dn3[dindex-1])
-        # Mackowski eqn 64
-        dn3[dindex] = dn1[dindex] + 1j/psixi[dindex]
+        dn3[dindex] = -dindex/z + 1./((dindex/z) - dn3[dindex-1])
 
     return dn1, dn3
 
